@@ -224,6 +224,14 @@ type Pool struct {
 
 var indexSeq int64
 
+var traceReq = os.Getenv("VERIF_TRACE") != ""
+
+// HangHook is called (once, from a timer goroutine) when a request has not returned after
+// hangAfter; Drive installs it.
+var HangHook func(index, pql string)
+
+var hangAfter = time.Duration(behav.EnvInt("VERIF_HANG_S", 60)) * time.Second
+
 // NewPool starts nOne single-node servers and nThree 3-node clusters.
 func NewPool(t testing.TB, nOne, nThree int) *Pool {
 	p := &Pool{one: make(chan *Node, nOne+1), three: make(chan *Node, nThree+1)}
@@ -319,12 +327,37 @@ type Sess struct {
 }
 
 // NewSess creates a fresh index with the given fields.
-func NewSess(nd *Node, p *Profile, fields []FieldSpec, indexKeys bool, salt int64) (*Sess, error) {
+func NewSess(nd *Node, name string, p *Profile, fields []FieldSpec, indexKeys bool, salt int64) (*Sess, error) {
+	var s *Sess
+	var err error
+	// creating an index can fail for reasons that have nothing to do with the property
+	// (boltdb open timeouts under load): retry before giving up
+	for try := 0; try < 3; try++ {
+		if try > 0 {
+			time.Sleep(time.Duration(try) * 300 * time.Millisecond)
+			nd.C[0].API.DeleteIndex(context.Background(), name)
+		}
+		if s, err = newSess(nd, name, p, fields, indexKeys, salt); err == nil {
+			return s, nil
+		}
+	}
+	return nil, err
+}
+
+func newSess(nd *Node, name string, p *Profile, fields []FieldSpec, indexKeys bool, salt int64) (*Sess, error) {
 	s := &Sess{Nd: nd, P: p, ctx: context.Background(), rng: rand.New(rand.NewSource(salt))}
-	s.Index = fmt.Sprintf("x%d", atomic.AddInt64(&indexSeq, 1))
+	s.Index = name
+	if name == "" {
+		s.Index = fmt.Sprintf("x%d", atomic.AddInt64(&indexSeq, 1))
+	}
 	api := nd.C[0].API
 	if _, err := api.CreateIndex(s.ctx, s.Index, pilosa.IndexOptions{TrackExistence: p.Exist, Keys: indexKeys}); err != nil {
-		return nil, fmt.Errorf("CreateIndex: %v", err)
+		// In a cluster the broadcast of the new index can lose a race against the schema
+		// carried by the gossiped node status: the peer already has the index and answers
+		// "already exists". The index name is unique, so the index is the one just created.
+		if !strings.Contains(err.Error(), "already exists") {
+			return nil, fmt.Errorf("CreateIndex: %v", err)
+		}
 	}
 	for _, f := range fields {
 		if err := s.CreateField(f); err != nil {
@@ -358,7 +391,9 @@ func (s *Sess) CreateField(f FieldSpec) error {
 		opts = append(opts, pilosa.OptFieldKeys())
 	}
 	if _, err := s.Nd.C[0].API.CreateField(s.ctx, s.Index, f.Name, opts...); err != nil {
-		return fmt.Errorf("CreateField %s: %v", f.Name, err)
+		if !strings.Contains(err.Error(), "already exists") { // see NewSess
+			return fmt.Errorf("CreateField %s: %v", f.Name, err)
+		}
 	}
 	return nil
 }
@@ -381,7 +416,19 @@ func (s *Sess) api() *pilosa.API {
 // Query sends PQL and returns the results of its calls.
 func (s *Sess) Query(pql string) ([]interface{}, error) {
 	s.Log = append(s.Log, pql)
+	if traceReq {
+		fmt.Fprintf(os.Stderr, "REQ %s %s\n", s.Index, pql)
+	}
+	// a request that does not return is a verdict too: the watchdog records it and ends the
+	// process (a goroutine spinning inside the server cannot be stopped any other way)
+	var wd *time.Timer
+	if HangHook != nil {
+		wd = time.AfterFunc(hangAfter, func() { HangHook(s.Index, pql) })
+	}
 	resp, err := s.api().Query(s.ctx, &pilosa.QueryRequest{Index: s.Index, Query: pql})
+	if wd != nil {
+		wd.Stop()
+	}
 	if err != nil {
 		return nil, err
 	}
